@@ -429,6 +429,25 @@ def attribute_pieces(ctx):
             ro = regex_of(db, n.iter, "parsetree")
             if ro and ro[0] == "split" and ro[1] is not None and "${" in ro[1].replace("\\", ""):
                 loops.append((n, ro))
+    if len(loops) != 1:
+        # the pieces taken apart into separate lists and put together again position by position: a list that was *filtered* on the
+        # way no longer lines up with the other one
+        for g in db.with_helpers(fn):
+            filtered = {}
+            for a in walk_func(g):
+                if isinstance(a, ast.Assign) and len(a.targets) == 1 and isinstance(a.targets[0], ast.Name) and isinstance(a.value, (ast.ListComp, ast.GeneratorExp)) and any(c_.ifs for c_ in a.value.generators):
+                    filtered[a.targets[0].id] = a
+                if isinstance(a, ast.Assign) and len(a.targets) == 1 and isinstance(a.targets[0], ast.Name) and isinstance(a.value, ast.Call) and dotted(a.value.func) in ("filter", "list") and a.value.args \
+                        and (dotted(a.value.func) == "filter" or (isinstance(a.value.args[0], ast.Call) and dotted(a.value.args[0].func) == "filter")):
+                    filtered[a.targets[0].id] = a
+            for z in walk_func(g):
+                if isinstance(z, ast.Call) and (dotted(z.func) or "").split(".")[-1] in ("zip", "zip_longest") and len(z.args) >= 2:
+                    bad = [x.id for x in z.args if isinstance(x, ast.Name) and x.id in filtered]
+                    if bad:
+                        ctx.violation("pieces.zipped-after-filter", db.where(z),
+                                      "the pieces of an attribute value are split into separate lists and recombined position by position (`%s`), but `%s` was filtered first (%s): once an empty piece is dropped the remaining text pieces move one place forward and the attribute's text and ${} values are concatenated in the wrong order"
+                                      % (" ".join(src(z).split())[:70], bad[0], " ".join(src(filtered[bad[0]].value).split())[:70]))
+                        return
     ctx.require(len(loops) == 1, "_parse_attributes: the loop over the pieces of an expression attribute was not found")
     lp, (_m, pat, fl, subj) = loops[0]
     x = lp.target.id
